@@ -211,6 +211,18 @@ func (c *Ctx) ruleExplicit(rule string, mod *core.Module, roots []*ssa.Function,
 		case stateGuardsExcused:
 			c.R.Ok(rule, k, pos, "explicit panic (schema-state guard)", "controlled only by schema state (unlinked reference, missing root, mis-built table): excluded for well-formed schemas (A1/A2)")
 		default:
+			// a guard that sits in an unexported helper of the type whose state it tests stands for the exported
+			// methods that call it: the finding is keyed by the operation that panics, wherever the test is written
+			if owners := c.guardOwners(mod, s.fn); len(owners) > 0 {
+				perFn[fk]--
+				for _, o := range owners {
+					ok2 := mod.Key(o)
+					perFn[ok2]++
+					c.R.Bad(rule, key(rule, ok2, sprintf("panic#%d when %s", perFn[ok2], desc)), pos, "explicit panic on schema state that a received description can produce",
+						"the guard (in "+fk+", called by this method) depends only on the schema's own state; a description from a plugin that leaves the schema in that state is accepted by the loader (or reaches this code during loading) and then panics in the engine")
+				}
+				continue
+			}
 			c.R.Bad(rule, k, pos, "explicit panic on schema state that a received description can produce",
 				"the guard depends only on the schema's own state; a description from a plugin that leaves the schema in that state is accepted by the loader (or reaches this code during loading) and then panics in the engine")
 		}
@@ -407,11 +419,14 @@ func (c *Ctx) internalInvariant(mod *core.Module, fn *ssa.Function, p *ssa.Panic
 					callers++
 					found := false
 					for _, cond := range core.CondsAt(b) {
-						if bin, ok := cond.V.(*ssa.BinOp); ok && bin.Op.String() == "==" && cond.True {
-							if lc, ok := bin.X.(*ssa.Call); ok {
-								if bi, ok := lc.Call.Value.(*ssa.Builtin); ok && bi.Name() == "len" {
-									if n, ok := core.ConstInt(bin.Y); ok && n == 1 {
-										found = true
+						// len(..) == 1 holds on this edge: the true edge of ==, the false edge of !=, either operand order
+						if bin, ok := cond.V.(*ssa.BinOp); ok && ((bin.Op.String() == "==" && cond.True) || (bin.Op.String() == "!=" && !cond.True)) {
+							for _, pr := range [][2]ssa.Value{{bin.X, bin.Y}, {bin.Y, bin.X}} {
+								if lc, ok := pr[0].(*ssa.Call); ok {
+									if bi, ok := lc.Call.Value.(*ssa.Builtin); ok && bi.Name() == "len" {
+										if n, ok := core.ConstInt(pr[1]); ok && n == 1 {
+											found = true
+										}
 									}
 								}
 							}
@@ -516,4 +531,55 @@ func (c *Ctx) ruleMustCall(rule string, fns map[*ssa.Function]bool) {
 		}
 	}
 	c.R.Note("%s: %d Must* calls in scope", rule, n)
+}
+
+// guardOwners: fn is an unexported method all of whose callers are exported methods of the same receiver type: those
+// callers (sorted). Nil otherwise.
+func (c *Ctx) guardOwners(mod *core.Module, fn *ssa.Function) []*ssa.Function {
+	if fn.Signature.Recv() == nil || ast_IsExported(fn.Name()) {
+		return nil
+	}
+	recvName := func(f *ssa.Function) string {
+		if f.Signature.Recv() == nil {
+			return ""
+		}
+		t := f.Signature.Recv().Type()
+		if p, ok := t.(*types.Pointer); ok {
+			t = p.Elem()
+		}
+		if n, ok := t.(*types.Named); ok {
+			return n.Obj().Name()
+		}
+		return ""
+	}
+	own := recvName(fn)
+	if own == "" {
+		return nil
+	}
+	seen := map[*ssa.Function]bool{}
+	var out []*ssa.Function
+	for _, g := range mod.Funcs {
+		for _, b := range g.Blocks {
+			for _, in := range b.Instrs {
+				ci, ok := in.(ssa.CallInstruction)
+				if !ok {
+					continue
+				}
+				for _, callee := range mod.Callees(ci.Common()) {
+					if callee != fn {
+						continue
+					}
+					if recvName(g) != own || !ast_IsExported(g.Name()) {
+						return nil
+					}
+					if !seen[g] {
+						seen[g] = true
+						out = append(out, g)
+					}
+				}
+			}
+		}
+	}
+	sort.Slice(out, func(i, j int) bool { return mod.Key(out[i]) < mod.Key(out[j]) })
+	return out
 }
